@@ -1524,3 +1524,51 @@ def r08n(ctx, rep, rule="R08n"):
     (rep.ok if not bad else rep.fail)(
         rule, key, "pow(Rational) applies no float power function" if not bad else
         "pow(Rational) raises a float with powf/powi: the base was rounded first and the error grows with the exponent", bad or [fn.span])
+
+
+def r08p(ctx, rep, rule="R08p"):
+    """expt: 'exponent too large' only where the power cannot be written down"""
+    from .. import shapes
+    facts = ctx["facts"]
+    rep.rule(rule, "an error is not a result: Number::pow takes a u32 exponent, and the expt procedure refuses a larger one. The powers "
+             "of 0, 1 and -1 are 0, 1 and +-1 whatever the exponent, so the refusal is raised only after the base was compared "
+             "(through Number's PartialEq) with those bases: every construction of the 'exponent is too large' error in expt is "
+             "reached only along paths on which three equality tests of the base came out false (or an order test found the exponent "
+             "not positive).")
+    fn = need(rep, rule, facts, "marwood::vm::builtin::number::expt")
+    if fn is None:
+        return
+    errs = []
+    for bb, j, st in fn.stmts():
+        rv = st["rv"]
+        if rv["k"] == "agg" and rv.get("variant") == "InvalidSyntax" and (rv.get("adt") or "").endswith("error::Error"):
+            errs.append((bb, st["loc"]))
+    if not errs:
+        rep.anchor_lost(rule, "InvalidSyntax construction in expt")
+        return
+    for i, (bb, loc) in enumerate(errs):
+        key = "%s|expt|too-large#%d" % (rule, i + 1)
+        paths = _paths_to(fn, bb)
+        if paths is None:
+            rep.fail(rule, key, "too many paths to the error in expt to decide", [loc])
+            continue
+        worst = None
+        for dec in paths:
+            eqf, ordf = 0, 0
+            for sb, v in dec:
+                tt = fn.blocks[sb]["term"]
+                if tt.get("opty") != "bool":
+                    continue
+                sh = shapes.shape(fn, tt["op"], 3)
+                if v == 0 and re.search(r"PartialEq>?::eq\(", sh):
+                    eqf += 1
+                if v == 0 and re.search(r"PartialOrd::(gt|ge|lt|le)\(", sh):
+                    ordf += 1
+            score = 3 if ordf else eqf
+            worst = score if worst is None else min(worst, score)
+        ok = worst is not None and worst >= 3
+        (rep.ok if ok else rep.fail)(
+            rule, key, "expt refuses an exponent only after the base was compared with 0, 1 and -1 (or the exponent found negative) on "
+            "each of %d path(s)" % len(paths) if ok else
+            "expt reports 'exponent is too large' on a path that has not compared the base with 0, 1 and -1 (%s equality test(s) on "
+            "the weakest path): (expt 1 4294967296) is 1 and (expt -1 4294967297) is -1" % worst, [loc])
